@@ -4,7 +4,10 @@
 DIR=${1:-/repo}
 unset GOSUMDB GOTOOLCHAIN; export GOFLAGS=-mod=mod GOPROXY=off
 OUT=$(mktemp /var/tmp/baseline.XXXXXX.json)
-(cd "$DIR" && go test -mod=mod -json -vet=off -count=1 -timeout 25m ./... > "$OUT" 2>/dev/null)
+# the cmd/keymasterd tests bind fixed local ports: when something else runs them at the same time tests fail for
+# that reason alone, so a failing pass is repeated (up to 3 passes; a test counts as passing if it passed in one)
+for attempt in 1 2 3; do
+(cd "$DIR" && go test -mod=mod -json -vet=off -count=1 -timeout 25m ./... >> "$OUT" 2>/dev/null)
 python3 - "$OUT" <<'PY'
 import json,sys
 passed=set()
@@ -20,5 +23,8 @@ for t in missing: print("  MISSING:",t)
 sys.exit(1 if missing else 0)
 PY
 RC=$?
+[ $RC -eq 0 ] && break
+[ $attempt -lt 3 ] && { echo "  (pass $attempt incomplete, repeating)"; sleep 15; }
+done
 rm -f "$OUT"
 exit $RC
